@@ -9,6 +9,8 @@ use std::sync::atomic::{AtomicUsize, Ordering};
 use varlink::{Call, CallTrait, ConnectionHandler, Reply, VarlinkService};
 
 pub struct ScriptIface {
+    /// how many trailing bytes call_upgraded reports as unread
+    pub keep: usize,
     pub name: &'static str,
     pub scripts: Vec<Msg>,
     pub next: AtomicUsize,
@@ -36,7 +38,8 @@ impl varlink::Interface for ScriptIface {
             b.consume(n);
         }
         self.upgraded_bytes.lock().unwrap().extend_from_slice(&v);
-        Ok(Vec::new())
+        let at = v.len().saturating_sub(self.keep);
+        Ok(v.split_off(at))
     }
     fn call(&self, call: &mut Call) -> varlink::Result<()> {
         let i = self.next.fetch_add(1, Ordering::SeqCst);
@@ -82,6 +85,7 @@ pub fn service(sc_msgs: &[Msg]) -> (VarlinkService, *const ScriptIface) {
     for n in names {
         let scripts: Vec<Msg> = sc_msgs.iter().filter(|m| m.parse_ok && iface_of(m.target) == Some(n)).cloned().collect();
         let iface = Box::new(ScriptIface {
+            keep: 0,
             name: n,
             scripts,
             next: AtomicUsize::new(0),
@@ -372,5 +376,39 @@ pub fn two_chunks<S: Src>(cut: usize, s: &mut S) -> Outcome {
             String::from_utf8_lossy(&out_b).replace('\0', "\\0"),
             res_2.as_ref().map(|x| x.0.clone()).map_err(|e| e.kind().clone())
         ),
+    }
+}
+
+/// C02 native replay of an upgraded stream handed to handle(.., Some(interface))
+pub fn upgraded_entry<S: Src>(s: &mut S) -> Outcome {
+    let (data, keep) = draw_upgraded(s);
+    let iface = Box::new(ScriptIface {
+        keep,
+        name: "a.b",
+        scripts: Vec::new(),
+        next: AtomicUsize::new(0),
+        upgraded_bytes: std::sync::Mutex::new(Vec::new()),
+    });
+    let p: *const ScriptIface = &*iface;
+    let svc = VarlinkService::new("v", "p", "1", "u", vec![iface]);
+    let mut out = Vec::new();
+    let res = svc.handle(&mut &data[..], &mut out, Some(String::from("a.b")));
+    let seen = unsafe { &*p }.upgraded_bytes.lock().unwrap().clone();
+    let mut bad = None;
+    if seen != data {
+        bad = Some(format!("the upgraded handler could read {:?} of the stream {:?}", seen, data));
+    } else if !out.is_empty() {
+        bad = Some(format!("handle wrote {:?} on an upgraded stream", out));
+    } else {
+        match &res {
+            Ok((tail, Some(name))) if name == "a.b" && tail[..] == data[5 - keep..] => {}
+            other => bad = Some(format!("handle returned {:?}, expected tail {:?} and Some(\"a.b\")", other.as_ref().map_err(|e| e.kind().clone()), &data[5 - keep..])),
+        }
+    }
+    Outcome {
+        reproduced: bad.is_some(),
+        role: "upgraded-stream".into(),
+        scenario: format!("handle(stream {:?}, upgraded interface a.b), handler leaves {} byte(s) unread", data, keep),
+        detail: bad.unwrap_or_default(),
     }
 }
